@@ -327,6 +327,12 @@ func (c *Collection) WriteCas(key string, exp Exp, cas CAS, val any, opt sgbucke
 			if err != nil {
 				return nil, remapKeyError(err, key)
 			}
+		} else {
+			// A tombstone (or a live doc, for the error case) may exist: its revision number carries on.
+			row := txn.QueryRow("SELECT revSeqNo FROM documents WHERE collection=? AND key=?", c.id, key)
+			if err = scan(row, &revSeqNo); err != nil && err != sql.ErrNoRows {
+				return nil, remapKeyError(err, key)
+			}
 		}
 		revSeqNo++
 		exp = absoluteExpiry(exp)
